@@ -595,3 +595,113 @@ func (in *Interp) lookupMethodByName(t types.Type, name string) *ssa.Function {
 	in.P.methCache[k] = f
 	return f
 }
+
+// ---------- strings.Map / ToLower / ToUpper over provably-ASCII symbolic strings: one term per octet, no forks ----------
+
+// mustHold: c is true on every input satisfying the path condition (no fork; one solver query at most).
+func (in *Interp) mustHold(c *Term) bool {
+	if in.cfg.Concrete != nil {
+		return in.ts.Eval(c) != 0
+	}
+	sc := in.simplifyBool(c)
+	if sc.IsConst() {
+		return sc.k != 0
+	}
+	if in.pcFacts[sc] {
+		return true
+	}
+	_, r := in.feasible(in.ts.Not(sc))
+	return r == "unsat"
+}
+
+func (in *Interp) asciiBytes(s str) bool {
+	for i := 0; i < s.Len(); i++ {
+		switch b := s.at(i).(type) {
+		case uint64:
+			if b >= 0x80 {
+				return false
+			}
+		case *Term:
+			if !in.mustHold(in.ts.Ult(b, in.ts.Const(8, 0x80))) {
+				return false
+			}
+		}
+	}
+	return true
+}
+
+func (in *Interp) runBody(fr *frame, args []value) value {
+	save := in.bypassExt
+	in.bypassExt = fr.fn
+	defer func() { in.bypassExt = save }()
+	return in.callSSA(fr.caller, fr.fn, args, nil)
+}
+
+func init() {
+	caseMap := func(upper bool) externFn {
+		return func(in *Interp, fr *frame, args []value) value {
+			s := args[0].(str)
+			if s.concrete() || !in.asciiBytes(s) {
+				return in.runBody(fr, args)
+			}
+			ts := in.ts
+			out := make([]value, s.Len())
+			for i := range out {
+				switch b := s.at(i).(type) {
+				case uint64:
+					c := byte(b)
+					if upper && c >= 'a' && c <= 'z' {
+						c -= 32
+					} else if !upper && c >= 'A' && c <= 'Z' {
+						c += 32
+					}
+					out[i] = uint64(c)
+				case *Term:
+					lo, hi, d := uint64('A'), uint64('Z'), uint64(32)
+					if upper {
+						lo, hi, d = 'a', 'z', 0xE0
+					}
+					inr := ts.And(ts.Ule(ts.Const(8, lo), b), ts.Ule(b, ts.Const(8, hi)))
+					out[i] = norm(ts.Ite(inr, ts.Bin(OpAdd, b, ts.Const(8, d)), b))
+				}
+			}
+			return strFromBytes(out)
+		}
+	}
+	externals["strings.ToLower"] = caseMap(false)
+	externals["strings.ToUpper"] = caseMap(true)
+	externals["strings.Map"] = func(in *Interp, fr *frame, args []value) value {
+		s := args[1].(str)
+		if s.concrete() || !in.asciiBytes(s) {
+			if debugForks && !s.concrete() {
+				in.stubs[fmt.Sprintf("fork:strings.Map fallback noFork=%d s=%v", in.noFork, s)]++
+			}
+			return in.runBody(fr, args)
+		}
+		ts := in.ts
+		out := make([]value, s.Len())
+		for i := range out {
+			var arg value
+			switch b := s.at(i).(type) {
+			case uint64:
+				arg = b
+			case *Term:
+				arg = norm(ts.ZExt(b, 32))
+			}
+			r := in.call(fr, args[0], []value{arg}, nil)
+			switch r := r.(type) {
+			case uint64:
+				if r >= 0x80 {
+					panic(in.unsupported("strings.Map: mapping leaves ASCII"))
+				}
+				out[i] = r
+			case *Term:
+				if !in.mustHold(ts.Ult(r, ts.Const(32, 0x80))) {
+					panic(in.unsupported("strings.Map: mapping may leave ASCII or drop a character"))
+				}
+				out[i] = norm(ts.Extract(r, 0, 8))
+			}
+		}
+		return strFromBytes(out)
+	}
+}
